@@ -215,6 +215,7 @@ def _tg_step(m, op):
     other = c12.build(((("a", 0), ("q", 1)), 0.0, 2.0))
     before, obefore = snap_tg(tg), snap_tg(other)
     tier_ids = [id(t) for t in tg.tiers]
+    held = list(tg.tiers)
     st, r, out = call(_tg_extra, tg, op, other)
     after = snap_tg(tg)
     tag = f"{op} on textgrid names={before[0]} span=({before[1]},{before[2]})"
@@ -222,6 +223,8 @@ def _tg_step(m, op):
     if op[0] in ("badadd", "badrep"):
         if st == "exc" and after != before:
             viols.append(Viol("changed-on-failure", f"{tag} raised {r!r} but the textgrid changed to names={after[0]} span=({after[1]},{after[2]})"))
+        elif st == "exc" and (len(tg.tiers) != len(held) or any(a is not b for a, b in zip(tg.tiers, held))):
+            viols.append(Viol("tier-objects-exchanged-on-failure", f"{tag} raised {r!r}; the textgrid now holds equal-valued but different tier objects"))
         return None, 1, op[0], (op, st), viols
     if after != before:
         viols.append(Viol("receiver-mutated", f"{tag} ({st}): textgrid changed: {before} -> {after}"))
